@@ -14,3 +14,69 @@ func (obj *Hmm) VerifC15Float64ForwardBackward(data HmmDataRecord) (*DenseFloat6
   beta  := NullDenseFloat64Matrix(m, n)
   return obj.float64ForwardBackward(data, alpha, beta)
 }
+
+// ---- round 2 (add-only): the recursions on caller-supplied work matrices ----
+//
+// Baum-Welch keeps one alpha and one beta matrix per thread, sized for the
+// longest record, and runs float64ForwardBackward on them for every record of
+// that thread.  The functions below run the same code on matrices the caller
+// owns (any prior content, at least M x n) so that the check can observe what
+// the recursions do with stale cells.
+
+func (obj *Hmm) VerifC15Float64ForwardBackwardOn(data HmmDataRecord, alpha, beta *DenseFloat64Matrix) error {
+  _, _, err := obj.float64ForwardBackward(data, alpha, beta)
+  return err
+}
+
+func (obj *Hmm) VerifC15ForwardBackwardOn(data HmmDataRecord, alpha, beta Matrix) error {
+  t1 := NewScalar(obj.ScalarType(), 0.0)
+  t2 := NewScalar(obj.ScalarType(), 0.0)
+  _, _, err := obj.forwardBackward(data, alpha, beta, t1, t2)
+  return err
+}
+
+// Fill the per-thread work memory of Baum-Welch (alpha, beta, xi, gamma0,
+// gammaTmp -- everything that is NOT reset by the init flag) with the value v:
+// the state an earlier, longer record may have left behind.
+func VerifC15BaumWelchPoison(tmp []BaumWelchTmp, v float64) {
+  for t := 0; t < len(tmp); t++ {
+    if tmp[t].alpha != nil {
+      tmp[t].alpha.Map(func(x Scalar) { x.SetFloat64(v) })
+    }
+    if tmp[t].beta != nil {
+      tmp[t].beta.Map(func(x Scalar) { x.SetFloat64(v) })
+    }
+    if tmp[t].xi != nil {
+      tmp[t].xi.Map(func(x Scalar) { x.SetFloat64(v) })
+    }
+    for i := 0; i < len(tmp[t].gamma0); i++ {
+      tmp[t].gamma0[i] = v
+    }
+    for i := 0; i < len(tmp[t].gammaTmp); i++ {
+      tmp[t].gammaTmp[i] = v
+    }
+  }
+}
+
+// Read-only copy of the expected-count accumulators (pi, tr) of thread t.
+func VerifC15BaumWelchAcc(tmp []BaumWelchTmp, t int) ([]float64, [][]float64) {
+  if t < 0 || t >= len(tmp) {
+    return nil, nil
+  }
+  pi := make([]float64, len(tmp[t].pi))
+  for i := 0; i < len(pi); i++ {
+    pi[i] = float64(tmp[t].pi[i])
+  }
+  if tmp[t].tr == nil {
+    return pi, nil
+  }
+  n1, n2 := tmp[t].tr.Dims()
+  tr := make([][]float64, n1)
+  for i := 0; i < n1; i++ {
+    tr[i] = make([]float64, n2)
+    for j := 0; j < n2; j++ {
+      tr[i][j] = tmp[t].tr.Float64At(i, j)
+    }
+  }
+  return pi, tr
+}
